@@ -34,7 +34,7 @@ BASE_WEIGHTS = {
 PROFILES = {
     "C01": {},
     "C02": {"rm_parent": 6, "rm_ws": 8, "set_flag": 6, "move": 7, "copy": 8, "close_reopen": 6, "move_data": 6, "copy_extent": 5, "pg_add": 6},
-    "C05": {"rm_ws": 12, "rm_parent": 9, "pg_add": 8, "pg_rm": 4, "pg_new": 5, "lookup": 6, "copy": 4, "set_flag": 5},
+    "C05": {"add_comment": 5, "add_file": 3, "rm_ws": 12, "rm_parent": 9, "pg_add": 8, "pg_rm": 4, "pg_new": 5, "lookup": 6, "copy": 4, "set_flag": 5},
     "C06": {"mk_dup": 8, "copy": 10, "rm_ws": 6, "rm_parent": 5, "lookup": 4},
     "C09": {"observe": 4, "list": 4, "type_edit": 6, "retype": 8, "copy": 9},
     "C12": {"copy": 16, "set_values": 7, "rename": 6, "set_meta": 6, "pg_add": 6, "copy_extent": 6, "pg_new": 3},
@@ -509,7 +509,10 @@ class World:
         return new[0]
 
     def gen_add_comment(self, rng, h):
-        t = self.target(rng, h, "holder", lambda r: not r.get("concat") and not r.get("concat_group"))
+        t = None
+        if rng.random() < 0.5:
+            t = self.target(rng, h, "holder", lambda r: r.get("concat_group"))      # ordinary data child of a concatenator (drillhole group)
+        t = t or self.target(rng, h, "holder", lambda r: not r.get("concat"))
         if t is None:
             return None
         return {"t": t, "text": rng.choice(build.TEXTS), "author": rng.choice(["me", "ü", None]), "dt": rng.choice([0, 1, 3600, -5])}
@@ -517,9 +520,11 @@ class World:
     def do_add_comment(self, op):
         h = op["h"]
         model = self.h[h].model
-        uid = self.resolve(h, op["t"], lambda r: not r.get("concat") and not r.get("concat_group"))
+        uid = self.resolve(h, op["t"], lambda r: not r.get("concat"))
         if uid is None:
             return "skipped"
+        if model.recs[uid].get("concat_group"):
+            self.sim.probe("data_child_of_drillhole_group")
         self.sim.clock.advance(op["dt"])
         self.touch(h, uid, *[c for c in model.recs[uid]["children"] if model.recs[c]["cls"] == "CommentsData"])
         ent = self.ent(h, uid)
@@ -544,7 +549,8 @@ class World:
         return "ok"
 
     def gen_add_file(self, rng, h):
-        t = self.target(rng, h, "holder", lambda r: not r.get("concat") and not r.get("concat_group"))
+        t = (self.target(rng, h, "holder", lambda r: r.get("concat_group")) if rng.random() < 0.5 else None) \
+            or self.target(rng, h, "holder", lambda r: not r.get("concat"))
         if t is None:
             return None
         return {"t": t, "blob": bytes(rng.randrange(256) for _ in range(rng.choice([1, 7, 40]))).hex(), "fname": rng.choice(["f.dat", "ü.bin", "a b.txt"])}
@@ -552,9 +558,11 @@ class World:
     def do_add_file(self, op):
         h = op["h"]
         model = self.h[h].model
-        uid = self.resolve(h, op["t"], lambda r: not r.get("concat") and not r.get("concat_group"))
+        uid = self.resolve(h, op["t"], lambda r: not r.get("concat"))
         if uid is None:
             return "skipped"
+        if model.recs[uid].get("concat_group"):
+            self.sim.probe("data_child_of_drillhole_group")
         fname = op["fname"]
         if fname in [model.recs[c]["name"] for c in model.recs[uid]["children"]]:
             fname = f"{op['id']}_{fname}"
@@ -879,6 +887,13 @@ class World:
             t = self.target(rng, h, "entity", lambda r: r["uid"] in guarded and r["flags"]["allow_delete"])
             if t is not None:
                 return t
+        if rng.random() < 0.12:
+            # a drillhole group (or its container) that holds ordinary data besides its holes
+            loaded = {u for u, r in model.recs.items() if r.get("concat_group") and any(model.recs[c]["kind"] == "data" for c in r["children"])}
+            loaded |= {model.recs[u]["parent"] for u in loaded if model.recs[u].get("parent") in model.recs and model.recs[u]["parent"] != model.root}
+            t = self.target(rng, h, "entity", lambda r: r["uid"] in loaded and self._deletable(model, r["uid"]))
+            if t is not None:
+                return t
         if rng.random() < 0.35:
             model = self.h[h].model
             grouped = {d for rec in model.recs.values() for pg in (rec.get("pgs") or {}).values() for d in pg["props"]}
@@ -905,6 +920,8 @@ class World:
             if rec.get("concat") or rec.get("concat_group") or any(model.recs[u].get("concat") for u in model.subtree(uid)):
                 return "skipped"
             return self._rm_partial(op, h, uid)
+        if any(model.recs[u].get("concat_group") and any(model.recs[c]["kind"] == "data" for c in model.recs[u]["children"]) for u in model.subtree(uid)):
+            self.sim.probe("rm_drillhole_group_with_data")
         self.touch(h, uid)
         ent = self.ent(h, uid)
         ws = self.h[h].ws
